@@ -347,23 +347,49 @@ func runRowsCase(c *vf.Ctx, env *rowsEnv, rc *rowsCase) {
 		c.Nontrivial("rows/" + rc.Shape + "/" + feat)
 	}
 
-	// a batch cut short (every strict prefix of small batches, a sample of large ones) is
-	// never accepted as a batch
+	// a batch cut short is never accepted as a batch: every strict prefix in the thorough tier (a
+	// sample of ~700 for batches beyond 1500 bytes); in the quick tier every cut inside the first 48
+	// and the last 8 bytes plus ~60 spread over the rest
 	lim := len(bin)
 	step := 1
-	if lim > 1500 {
-		step = lim / 700
+	if c.Thorough() {
+		if lim > 1500 {
+			step = lim / 700
+		}
+	} else if lim > 120 {
+		step = (lim-56)/60 + 1
 	}
-	for p := 0; p < lim; p += step {
-		if step > 1 {
-			p += env.rndP.IntN(step)
-			if p >= lim {
+	// the cuts exactly between two rows are the ones only the row count can expose: always probed
+	var bounds []int
+	if step > 1 {
+		off := 5
+		for i := 0; i < len(in)-1 && i < 24; i++ {
+			rb, rerr := in[i].FastMarshalBinary(nil)
+			if rerr != nil {
 				break
 			}
+			off += len(rb)
+			bounds = append(bounds, off)
+		}
+	}
+	for p := -len(bounds); p < lim; {
+		at := p
+		if p < 0 {
+			at = bounds[len(bounds)+p]
+			p++
+		} else if step > 1 && p >= 48 && p < lim-8 {
+			at += env.rndP.IntN(step)
+			p += step
+			if at >= lim-8 {
+				p = lim - 8
+				continue
+			}
+		} else {
+			p++
 		}
 		var rows []influx.Row
 		var perr error
-		pre := append([]byte(nil), bin[:p]...) // exact capacity: an over-read panics instead of reading stale bytes
+		pre := append([]byte(nil), bin[:at]...) // exact capacity: an over-read panics instead of reading stale bytes
 		// the probes use pools of their own so that the main pools keep the history WAL replay would give them
 		if pn := vf.Catch(func() {
 			rows, _, _, _, _, perr = influx.FastUnmarshalMultiRows(pre, nil, nil, nil, nil, nil)
@@ -376,8 +402,8 @@ func runRowsCase(c *vf.Ctx, env *rowsEnv, rc *rowsCase) {
 		}
 		c.Count("row-batch-prefixes", 1)
 		if perr == nil && len(rows) > 0 {
-			c.Violation("rows/prefix-accepted", fmt.Sprintf("the first %d of %d bytes of a valid batch were decoded into %d rows without an error", p, lim, len(rows)),
-				map[string]any{"case": rc, "prefix_len": p})
+			c.Violation("rows/prefix-accepted", fmt.Sprintf("the first %d of %d bytes of a valid batch were decoded into %d rows without an error", at, lim, len(rows)),
+				map[string]any{"case": rc, "prefix_len": at})
 			return
 		}
 		if perr == nil {
